@@ -592,11 +592,12 @@ def stereo_count(m):
 
 
 def valence_valid(m):
-    """every hydrogen count is known and no hydrogen atom has more than one bond (chython gives every H atom the count 0)"""
+    """every hydrogen count is known and no hydrogen atom has more than one covalent bond (chython gives every H atom the
+    count 0; a second, coordinate (order 8) bond is what the diborane rule itself produces)"""
     for n, a in m.atoms():
         if a.implicit_hydrogens is None:
             return False
-        if a.atomic_number == 1 and len(m._bonds[n]) > 1:
+        if a.atomic_number == 1 and sum(1 for bd in m._bonds[n].values() if int(bd) != 8) > 1:
             return False
     return True
 
@@ -661,9 +662,9 @@ def check_op(ck, lim, name, smi, make, renumber=True, fixed_corpus=False):
     except Exception as e:
         if valid:
             key = f'raises:{name}:{type(e).__name__}:{smi}'
-            if family == 'canonicalize' and type(e).__name__ == 'ValenceError' and 'Hydrogen atom' in str(e) and \
+            if family in ('canonicalize', 'implicify_hydrogens') and type(e).__name__ == 'ValenceError' and 'Hydrogen atom' in str(e) and \
                     any(a.atomic_number == 1 and len(m._bonds[n]) > 1 and any(int(x) == 8 for x in m._bonds[n].values()) for n, a in m.atoms()):
-                key = 'canonicalize-raises:hydrogen-with-coordinate-bond'
+                key = 'implicify-raises:hydrogen-with-coordinate-bond'
             lim.counterexample(f'raises {name}', key, f'{code} raises {type(e).__name__} on valence-valid input',
                                inp, f'{type(e).__name__}: {e}', 'no exception', 'the operation must not fail on valence-valid input', replay_py=rp)
         else:
@@ -995,6 +996,25 @@ def directed_search(ck, rng, metas):
                     inverse_pair(ck, lim, s, make)
             except Exception:
                 pass
+    # a broken table obligation shows on metal-organic spellings (valence-invalid at the metal atom only, which is what the
+    # metal rules are written for): the net charge must survive standardize() also when the `bad charge formed` branch fires
+    for s in ['[Ti+4]C#N', '[Ti+3](C#N)C#N', '[Ti](C#N)(C#N)(C#N)(C#N)(C#N)C#N', '[Fe+4]C#N', '[Ti+4](C#N)C#N', '[Hf+4]OC#N', '[Ti+4]N=C=O', '[Zr+4]SC#N',
+              '[Ti+4]C#[O+]', '[Ti+4][N+]#[C-]', '[Ti+4]C', '[Ti+4]c1ccccc1', '[Ti+4]OC(C)=O', '[Ti+4]N(C)C', '[Ti+4]Cl', '[Ti+4]O', '[Ti+3](Cl)Cl', '[Ti+4]=C1N(C)C=CN1C']:
+        try:
+            m = smiles(s)
+            q0 = sum(a.charge for _, a in m.atoms())
+            heavy0 = observe(m)['heavy']
+            m.standardize()
+        except Exception:
+            continue
+        tried += 1
+        q1 = sum(a.charge for _, a in m.atoms())
+        if q1 != q0 or observe(m)['heavy'] != heavy0:
+            lim.counterexample('net charge metal-organic', f'net-charge:metal-organic:{s}',
+                               'standardize() changes the net charge of a metal-organic spelling (valence-invalid at the metal atom only: the inputs the metal rules are '
+                               'written for); a half-applied patch after `bad charge formed`', {'smiles': s}, {'charge': q1, 'result': str(m)}, {'charge': q0},
+                               'sum of charges', replay_py=f'from chython import smiles\nm = smiles({s!r}); print(sum(a.charge for _, a in m.atoms())); m.standardize(); '
+                                                           f'print(m, sum(a.charge for _, a in m.atoms()))')
     ck.extra['directed_search_cases'] = tried
 
 
